@@ -284,7 +284,7 @@ def concrete(case):
             accepted = bool(calls) and case['libresult'] == 'ret'
             if (status == 0) != accepted:
                 probs.append(f'status {status} although the library {"accepted" if accepted else "did not accept"}')
-            if status == 0 and 'successful' not in buf.getvalue():
+            if status == 0 and not buf.getvalue().strip():
                 probs.append('status 0 without a success message')
             if calls:
                 which, a, k = calls[0]
